@@ -289,7 +289,12 @@ func (c04) Run(sc *Scenario) *Verdict {
 	if _, ok := weff.Docs[w.Root]; !ok {
 		weff.Docs[w.Root] = w.Docs[w.Root]
 	}
-	const ucap = 3000
+	ucap := 3000
+	if s := os.Getenv("VERIF_C04_UCAP"); s != "" {
+		if n, err := strconv.Atoi(s); err == nil {
+			ucap = n // diagnostic override
+		}
+	}
 	u := weff.Unfolding(start, false, ucap)
 	// a fault on the root URL only hits references that name the root by URL: fragment-only
 	// references still see the intact in-memory root, so the fault-free unfolding bounds those
